@@ -213,3 +213,57 @@ func ZZVerifC06TextIndex() {
 	}
 	rt.Reach("end")
 }
+
+// ZZVerifC06ScopeFilterText: a search restricted both by a metadata filter and by a graph scope returns only ids
+// that satisfy the filter AND lie inside the scope (root or reachable within the depth) - in particular nothing
+// when the two restrictions are disjoint - on the vector, hybrid, text-only and CONTAINS paths.
+func ZZVerifC06ScopeFilterText() {
+	e := zzOpen()
+	rt.Assert(e.VCreate("i0", distance.Euclidean, 2, 4, distance.Float32, "english", nil, nil, nil) == nil, "prelude: VCreate")
+	ids := []string{"a", "b", "c", "d"}
+	cats := []string{"A", "A", "B", "C"}
+	for i, id := range ids {
+		rt.Assert(e.VAdd("i0", id, []float32{float32(i + 1)}, map[string]any{"cat": cats[i], "content": "red apple " + id}) == nil, "prelude: VAdd")
+	}
+	// one or two links out of the root "a"
+	reach := map[string]bool{"a": true}
+	nl := rt.IntRange("links", 1, 2)
+	for l := 0; l < nl; l++ {
+		t := ids[rt.IntRange("target", 1, 3)]
+		rt.Assert(e.VLink("i0", "a", t, "next", "", 1, nil) == nil, "prelude: VLink")
+		reach[t] = true
+	}
+	fcat := []string{"A", "B", "C"}[rt.IntRange("filterCat", 0, 2)]
+	gq := &GraphQuery{RootID: "a", Relations: []string{"next"}, Direction: "out", MaxDepth: 1}
+	filter, text, alpha := "cat='"+fcat+"'", "", 0.5
+	qv := []float32{3}
+	switch rt.IntRange("mode", 0, 3) {
+	case 0: // pure vector
+		alpha = 1
+	case 1: // hybrid
+		text = "apple"
+	case 2: // text-only
+		text, qv, alpha = "apple", nil, 0
+	case 3: // CONTAINS clause
+		filter += " AND CONTAINS(content, 'apple')"
+	}
+	res, err := e.VSearch("i0", qv, 4, filter, text, 0, alpha, gq)
+	rt.Assert(err == nil, "scoped search succeeds")
+	seen := map[string]bool{}
+	for _, id := range res {
+		rt.Assert(!seen[id], "scoped search: ids are distinct")
+		seen[id] = true
+		ci := -1
+		for i := range ids {
+			if ids[i] == id {
+				ci = i
+			}
+		}
+		rt.Assert(ci >= 0, "scoped search: only existing ids")
+		if ci >= 0 {
+			rt.Assert(cats[ci] == fcat, "scoped search: every result satisfies the metadata filter")
+			rt.Assert(reach[id], "scoped search: every result lies inside the graph scope")
+		}
+	}
+	rt.Reach("end")
+}
